@@ -15,7 +15,7 @@ THEOREMS = ["links_symmetric", "links_point_to_existing", "link_buckets_sorted",
             "schema_links_symmetric", "schema_self_links_symmetric", "schema_links_point_to_existing",
             "schema_rc_agree", "schema_setlinks_exact", "schema_setlinks_missing", "schema_delete_unlinks",
             "schema_delete_unlinks_rc", "schema_delete_succeeds_iff", "schema_delete_failure_changes_nothing",
-            "schema_naming_irrelevant"]
+            "schema_naming_irrelevant", "keysize_small_ids_unchanged"]
 
 LIST_FIELDS = {"cl": [3], "u": [3], "al": [3], "rl": [3], "sl": [3]}
 G_LIST_FIELDS = {"cl": [4], "u": [4], "al": [4], "rl": [4], "sl": [4]}
@@ -172,7 +172,10 @@ RULE = ("each case is a history of Db.Update transactions over two real stores w
         "through each of the 4 stores, after every collection got links / counts (incl. a self link), then re-creation; "
         "random histories (Create / Create-with-SetLinkedIds / Update / DeleteById through root or child stores, all "
         "collection operations on any declared collection) per small schema (1 quick / 12 thorough each); SIZE "
-        "boundaries of link sets: one entity linked with n peers in a plain / ref-counted / self collection (links made from "
+        "KEY-SIZE boundary of ids: an entity whose id has 32767 / 32768 bytes (thorough: 32766..32769) on either side "
+        "of a plain / ref-counted collection, every link operation in its own transaction (a link key = type byte + id "
+        "beyond bbolt's MaxKeySize is refused: the operation must fail, or succeed symmetrically), delete of the long "
+        "entity; boundaries of link sets: one entity linked with n peers in a plain / ref-counted / self collection (links made from "
         "its side, or one by one from the peers' side), SetLinks from n links to a 3/5 subset plus new peers, delete of a peer "
         "and of the hub, re-creation - quick: n = 1001 (3 cases), thorough: 255/256/257/1000/1001 (7 cases each), 2048/2049 "
         "(4 each), 4097 (2); plus random "
